@@ -46,9 +46,10 @@ type Node struct {
 }
 
 type Field struct {
-	Name string `json:"name"`
-	Tag  string `json:"tag"` // content of the gnark tag; "" = no tag
-	Node *Node  `json:"node"`
+	Name     string `json:"name"`
+	Tag      string `json:"tag"` // content of the gnark tag; "" = no tag
+	Node     *Node  `json:"node"`
+	Embedded bool   `json:"embedded,omitempty"` // anonymous (embedded) struct field
 }
 
 // Value is how one leaf is assigned.
@@ -75,7 +76,7 @@ func goType(n *Node) reflect.Type {
 	case "struct":
 		var fs []reflect.StructField
 		for _, f := range n.Fields {
-			sf := reflect.StructField{Name: f.Name, Type: goType(f.Node)}
+			sf := reflect.StructField{Name: f.Name, Type: goType(f.Node), Anonymous: f.Embedded}
 			if f.Tag != "" {
 				sf.Tag = reflect.StructTag(`gnark:"` + f.Tag + `"`)
 			}
@@ -292,6 +293,9 @@ func features(n *Node, fs map[string]bool) {
 			}
 			if strings.Contains(f.Tag, "inherit") {
 				fs["inherit-tag"] = true
+			}
+			if f.Embedded {
+				fs["embedded-struct"] = true
 			}
 			features(f.Node, fs)
 		}
@@ -527,7 +531,12 @@ func genNode(t *rapid.T, d int) *Node {
 		n := &Node{Kind: "struct"}
 		nf := rapid.IntRange(1, 4).Draw(t, "nfields")
 		for i := 0; i < nf; i++ {
-			n.Fields = append(n.Fields, Field{Name: fmt.Sprintf("F%d", i), Tag: uniq(rapid.SampledFrom(tags).Draw(t, "tag"), i), Node: genNode(t, d-1)})
+			fl := Field{Name: fmt.Sprintf("F%d", i), Tag: uniq(rapid.SampledFrom(tags).Draw(t, "tag"), i), Node: genNode(t, d-1)}
+			if fl.Node.Kind == "struct" && rapid.IntRange(0, 2).Draw(t, "embed") == 0 {
+				// embedded struct: promoted fields, no tag of its own
+				fl.Embedded, fl.Tag, fl.Name = true, "", fmt.Sprintf("E%d", i)
+			}
+			n.Fields = append(n.Fields, fl)
 		}
 		return n
 	case k == 7:
@@ -548,7 +557,11 @@ func genCase(fields []string) *rapid.Generator[Case] {
 		root := &Node{Kind: "struct"}
 		nf := rapid.IntRange(1, 5).Draw(t, "nfields")
 		for i := 0; i < nf; i++ {
-			root.Fields = append(root.Fields, Field{Name: fmt.Sprintf("R%d", i), Tag: uniq(rapid.SampledFrom(tags).Draw(t, "tag"), i), Node: genNode(t, 3)})
+			fl := Field{Name: fmt.Sprintf("R%d", i), Tag: uniq(rapid.SampledFrom(tags).Draw(t, "tag"), i), Node: genNode(t, 3)}
+			if fl.Node.Kind == "struct" && rapid.IntRange(0, 3).Draw(t, "embed") == 0 {
+				fl.Embedded, fl.Tag, fl.Name = true, "", fmt.Sprintf("E%d", i)
+			}
+			root.Fields = append(root.Fields, fl)
 		}
 		c := Case{Shape: root, Field: rapid.SampledFrom(fields).Draw(t, "field")}
 		nv := rapid.IntRange(1, 6).Draw(t, "nvals")
@@ -569,7 +582,7 @@ func TestWitnessBinding(t *testing.T) {
 	rec.Assume("the dynamic struct hangs under a fixed `Shell{Body any}` holder, which only prefixes names with Body_")
 	fields := []string{"f47", "f47", "bn254", "bls12-377", "bls12-381", "bw6-761", "bls24-315", "bls24-317", "bw6-633", "babybear", "koalabear"}
 	g := genCase(fields)
-	rec.Check(t, "shape", ev.N(5000, 120000), func(rt *rapid.T) {
+	rec.Check(t, "shape", ev.N(20000, 300000), func(rt *rapid.T) {
 		c := g.Draw(rt, "case")
 		rec.Report(rt, "shape", c, run(c))
 	})
